@@ -430,9 +430,23 @@ func checkC18Positional(c *Ctx, n int) {
 		}
 		dd := cs.Opts&flags.PassDoubleDash != 0 && r.Intn(2) == 0
 		ddAt := r.Intn(k + 1)
+		// a third of the declarations with subcommands: the typed values SPELL subcommands (a word that
+		// names a command is a value while a field takes it, and it is no "non-option" for
+		// PassAfterNonOption), and the last word is a partial option name
+		cmdWords := withCmds && r.Intn(3) == 0
+		if cmdWords {
+			dd = false
+			if r.Intn(2) == 0 {
+				cs.Opts |= flags.PassAfterNonOption
+			}
+		}
 		for j := 0; j < k; j++ {
 			if dd && j == ddAt {
 				args = append(args, "--")
+			}
+			if cmdWords {
+				args = append(args, []string{"start", "stop", "other"}[r.Intn(3)])
+				continue
 			}
 			args = append(args, []string{"red", "blue", "green"}[r.Intn(3)])
 		}
@@ -442,6 +456,9 @@ func checkC18Positional(c *Ctx, n int) {
 		last := []string{"g", "g", "G", "Gr", "GRE"}[r.Intn(5)]
 		if withCmds {
 			last = []string{"g", "st", "sto", ""}[r.Intn(4)]
+		}
+		if cmdWords {
+			last = []string{"--v", "--", "--verb", "--x"}[r.Intn(4)]
 		}
 		args = append(args, last)
 		cs.Ops = []Op{{Kind: "complete", Args: args}}
@@ -466,7 +483,13 @@ func checkC18Positional(c *Ctx, n int) {
 				kEff = k + 1
 			}
 			want := []string{}
-			if kEff < m || hasRest {
+			if cmdWords {
+				// options stay recognised behind command-named words, with or without PassAfterNonOption
+				if strings.HasPrefix("--verbose", last) {
+					want = append(want, "--verbose")
+				}
+				c.Class("c18/positional: command-named values, partial option name last")
+			} else if kEff < m || hasRest {
 				for _, col := range []string{"blue", "green", "grey", "red"} {
 					if strings.HasPrefix(col, asciiLower(last)) {
 						want = append(want, col)
